@@ -16,7 +16,6 @@ import (
 	"context"
 	"fmt"
 	"net"
-	goruntime "runtime"
 	"sort"
 	"strings"
 	"time"
@@ -446,6 +445,7 @@ func (w *world) apiGetHook(a k8stesting.GetAction) (bool, runtime.Object, error)
 		return true, nil, fmt.Errorf("injected Kubernetes API error")
 	}
 	w.r.Probe("gc_live_pod_lookup")
+	w.r.Logf("  gc: live GET pod %s/%s at %s", a.GetNamespace(), a.GetName(), w.now())
 	return false, nil, nil // fall through to the object tracker
 }
 
@@ -454,7 +454,6 @@ func (w *world) kickChecker() {
 	case w.checkKick <- struct{}{}:
 	default:
 	}
-	goruntime.Gosched()
 }
 
 // checker evaluates the controller's bookkeeping invariant with the main loop parked in its select, exactly as
@@ -464,7 +463,6 @@ func (w *world) checker() {
 		resume := w.gc.PauseForSim()
 		w.or.consistency()
 		resume()
-		goruntime.Gosched()
 	}
 }
 
